@@ -221,10 +221,12 @@ prop('C18', units=['fr', 'ut'], level='proof',
                   'nodes of a rowan tree are nested or disjoint'])
 
 prop('C19', units=['ih'], level='proof',
+     bounded=[dict(test='c19_hints', covers='the hover, label and placement clauses of C19 (hover::exec / extract_doc_comments, inlay_hint_class, inlay_hint_record_field: rowan navigation and format!, outside the contracts)',
+                   bound='a fixed corpus written from the property statement: 3 workspaces; hover at 5 use sites (class with two contiguous // lines below a blank-line-separated comment, overridden field, template argument, undocumented class, def) compared with the expected signature and doc text and with the go-to-definition target; hover on a class of an included file; the full hint list (7 hints: positional arguments of a parent-class reference spread over two lines and of a class value, two field overrides) compared by position, label and kind')],
      explanation=('Partial: the range clause only. Verus proves on the real text of ide::handlers::inlay_hint::exec that every hint it returns has its position inside the requested range: '
                   'the filter closure of the final hints.retain(..) is moved into a function and proved to answer start <= position <= end, and Vec::retain is assumed to keep exactly the '
-                  'elements for which it answers true. What the gathering loop produces (rowan navigation, format!) is not constrained. NOT decided: the hover half (signature and doc comments), that '
-                  'each positional template argument is labelled with the parameter it binds, that a field override is labelled with the declared type, and the placement of the hints.'),
+                  'elements for which it answers true. What the gathering loop produces (rowan navigation, format!) is not constrained. NOT proved: the hover half (signature and doc comments), that '
+                  'each positional template argument is labelled with the parameter it binds, that a field override is labelled with the declared type, and the placement of the hints - these are covered only by a BOUNDED stand-in (fixed corpus, not counted as proved).'),
      assumptions=['Verus/Z3/rustc sound; extraction faithful (round-trip audit)',
                   'TextRange::contains_inclusive(o) is start <= o <= end (text-size); Vec::retain keeps exactly the elements for which the closure answers true (R14 helper)',
                   'the loop that gathers the hints is outlined (R14) with no contract: nothing about its result is used'])
